@@ -196,7 +196,7 @@ pub fn run(a: &Args, out: &mut impl Write) {
                     ops.push(format!("F{}:{}", i, site))
                 }
                 3 | 4 | 5 | 6 => ops.push(format!("A{}:{}", i, r.below(50))),
-                _ => ops.push("D".to_string()),
+                _ => ops.push(if r.chance(1, 3) { "P".to_string() } else { "D".to_string() }),
             }
         }
         // always end with a drop followed by an await of everything
@@ -234,6 +234,15 @@ pub fn run(a: &Args, out: &mut impl Write) {
                         .as_bytes(),
                     )
                     .unwrap();
+                } else if op == "P" {
+                    // the lifetime ends by unwinding: a panic in the scope that owns the injector
+                    let owned = inj.take();
+                    let _ = std::panic::catch_unwind(std::panic::AssertUnwindSafe(move || {
+                        let _held = owned;
+                        panic!("user panic while async fakes are installed");
+                    }));
+                    inj = Some(InjectorPP::new());
+                    w.write_all(b" P").unwrap();
                 } else {
                     drop(inj.take());
                     inj = Some(InjectorPP::new());
